@@ -57,6 +57,9 @@ def windows(dll, tier, seed):
             for nd in sc["nodes"]:
                 nd["paceMax"] = 200001
             out.append(sc)
+            if bi in (None, 120000):
+                # the same broadcast while a cyclic application timer is running on the originator (shared job loop)
+                out.append(dict(sc, timers=[{"t": 0, "node": "A", "delta": 333337, "periodic": True}]))
     return out
 
 
